@@ -1,6 +1,7 @@
 package props
 
 import (
+	"context"
 	"encoding/json"
 	"fmt"
 	"strings"
@@ -47,7 +48,7 @@ func genC20(t *rapid.T) *c20Scenario {
 		CapNeg:    rapid.Bool().Draw(t, "capneg"),
 		Tracking:  rapid.Bool().Draw(t, "tracking"),
 		ViaTo:     rapid.Bool().Draw(t, "via_to"),
-		Failure:   rapid.SampledFrom([]string{"none", "none", "dial", "write_at_pass", "eof_after_pass", "refusal", "eof_at_connect", "eof_at_connect"}).Draw(t, "failure"),
+		Failure:   rapid.SampledFrom([]string{"none", "none", "dial", "write_at_pass", "eof_after_pass", "refusal", "eof_at_connect", "eof_at_connect", "deadline"}).Draw(t, "failure"),
 		Reconnect: rapid.IntRange(0, 2).Draw(t, "reconnects"),
 		Traffic:   rapid.IntRange(0, 6).Draw(t, "traffic"),
 		Wipe:      rapid.SampledFrom([]string{"", "", "clear", "change"}).Draw(t, "wipe"),
@@ -105,6 +106,27 @@ func c20Session(sc *c20Scenario, pass string) (recs []logRec, passOnWire int, v 
 			}
 		}
 		var err error
+		if sc.Failure == "deadline" {
+			// the connect context carries a deadline that passes while the server has not yet read anything:
+			// the connection is up, registration is queued, and the client gives it up
+			tc.S.Prepare(func(c *ircsim.Conn) { c.Gate(true) })
+			ctx, cancel := context.WithTimeout(context.Background(), 15*time.Millisecond)
+			defer cancel()
+			if sc.ViaTo && pass != "" {
+				err = tc.C.ConnectToContext(ctx, "irc.example.net", pass)
+			} else {
+				err = tc.C.ConnectContext(ctx)
+			}
+			if err == nil {
+				select {
+				case <-disc:
+				case <-time.After(stallTimeout()):
+					return nil, 0, violationf("C20", "no DISCONNECTED after the connect context's deadline passed")
+				}
+			}
+			tc.S.Prepare(nil)
+			continue
+		}
 		if sc.ViaTo && pass != "" {
 			err = tc.C.ConnectTo("irc.example.net", pass)
 		} else if sc.ViaTo {
